@@ -13,9 +13,10 @@ ENV = [["ZCV_HOME", "/h"], ["ZCV_Mixed", "m"]]
 
 class Case:
     __slots__ = ("sd", "real", "elab", "hnames", "lines", "faults", "overrides", "meta", "model", "out", "cfg", "handler",
-                 "files", "url")
+                 "files", "url", "spec")
 
     def __init__(self):
+        self.spec = None
         self.files = None      # {relative path: [lines]} for %include targets (real files in a scratch tree)
         self.url = None
         self.meta = {}
@@ -51,8 +52,9 @@ def gen_cases(ctx, n_schemas, n_texts, handlers=False, nfaults=(0, 0, 1, 1, 2, 3
     cases = []
     for _ in range(n_schemas):
         sd, real, elab, hn = make_schema(rng, handlers)
-        if not check_digest(ctx, sd, real, elab):
-            continue
+        # a digest mismatch is recorded as a broken tie; the texts still run against the EXPECTED elaboration so that a
+        # schema-loading regression surfaces as a concrete (schema, text) on which the loader's result is wrong
+        check_digest(ctx, sd, real, elab)
         for _ in range(n_texts):
             items = cfggen.gen_items(rng, elab, None, 3)
             fl = []
@@ -103,7 +105,7 @@ def _resolve_table(root_url, main_rel, files, all_lines):
     return urls, table
 
 
-def evaluate(ctx, cases, fresh_schema=False):
+def evaluate(ctx, cases, fresh_schema=False, with_spec=False):
     """fills c.model / c.out / c.cfg / c.handler"""
     import shutil
     for k, v in ENV:
@@ -111,6 +113,7 @@ def evaluate(ctx, cases, fresh_schema=False):
     os.environ.pop("NOSUCHENV_ZCV", None)
     root = None
     reqs = []
+    sreqs = []
     plans = []
     try:
         for i, c in enumerate(cases):
@@ -120,6 +123,8 @@ def evaluate(ctx, cases, fresh_schema=False):
                 if any("%include" in l for l in c.lines):
                     _, table = _resolve_table("file:///zcvroot/", "main.conf", {}, [c.lines])
                 reqs.append(cfgrun.model_load_request(c.elab, c.lines, URL, c.overrides, env=ENV, resolve=table))
+                if with_spec:
+                    sreqs.append(cfgrun.spec_load_request(c.elab, c.lines, URL, resolve=table, env=ENV))
                 plans.append(None)
             else:
                 if root is None:
@@ -137,8 +142,13 @@ def evaluate(ctx, cases, fresh_schema=False):
                 res = [[urls[rel], ls] for rel, ls in c.files.items()]
                 reqs.append(cfgrun.model_load_request(c.elab, c.lines, c.url, c.overrides, env=ENV,
                                                       resources=res, resolve=table))
+                if with_spec:
+                    sreqs.append(cfgrun.spec_load_request(c.elab, c.lines, c.url, resources=res, resolve=table, env=ENV))
                 plans.append(os.path.join(d, main_rel))
         ans = core.driver_batch(reqs, chunk=5000) if ctx.driver_ok else [None] * len(cases)
+        if with_spec and ctx.driver_ok:
+            for c, sa in zip(cases, core.driver_batch(sreqs, chunk=5000)):
+                c.spec = sa
         for c, a, plan in zip(cases, ans, plans):
             c.model = cfgrun.canon_model(a) if a is not None else None
             real = F.load_real(c.sd) if fresh_schema else c.real
